@@ -44,7 +44,7 @@ type verifC12Root struct {
 }
 
 type verifC12RootOp struct {
-	Op       string         `json:"op"`              // cas | set-roots | set-roots-config | set-config
+	Op       string         `json:"op"`              // cas | set-roots | set-roots-config | set-config | serial | snapshot-restore
 	Step     uint64         `json:"step"`            // raft index increment (1-3)
 	Supplied string         `json:"supplied"`        // roots index: current | stale | zero | future
 	Back     int            `json:"back,omitempty"`  // stale: how many earlier roots indexes to go back
@@ -60,6 +60,7 @@ type verifC12RootsState struct {
 	rootsIdxes []uint64 // every value the roots table index has had (0 first)
 	cfgIdxes   []uint64
 	everSet    bool
+	maxSerial  uint64 // largest provider serial handed out so far in this history
 	// non-triviality: successful rotation, then a failed conditional update, then another successful rotation
 	phase int
 }
@@ -73,7 +74,100 @@ func verifC12RootsSnapshot(s *state.Store) (idx uint64, roots map[string]verifC1
 	return
 }
 
+// verifC12SerialOrRestore handles the two ops that concern "a serial never used before" across a snapshot restore:
+//   serial            CAOpIncrementProviderSerialNumber: the returned serial is larger than every serial returned before
+//                     in this history, whatever happened in between, and the root set is untouched;
+//   snapshot-restore  the CA tables and the whole index table are copied into a fresh store through the calls the FSM
+//                     makes on restore (Snapshot.Indexes -> Restore.IndexRestore, CARoots -> Restore.CARoot, CAConfig ->
+//                     Restore.CAConfig); the history continues on the restored store, which must hold the same state.
+func verifC12SerialOrRestore(f verifkit.F, c *verifkit.Case, st *verifC12RootsState, op verifC12RootOp) {
+	s := st.s
+	switch op.Op {
+	case "serial":
+		st.idx += op.Step
+		_, rootsBefore, _ := verifC12RootsSnapshot(s)
+		var serial uint64
+		switch v := fsm.ApplyConnectCAOperationFromRequest(s, &structs.CARequest{Op: structs.CAOpIncrementProviderSerialNumber}, st.idx).(type) {
+		case uint64:
+			serial = v
+		default:
+			c.Violation(f, "C12/provider-serial-allocation-failed", "increment-provider-serial at raft index %d answered %T %v", st.idx, v, v)
+			return
+		}
+		c.Label("serial:allocated")
+		if serial <= st.maxSerial {
+			c.Violation(f, "C12/provider-serial-reused", "increment-provider-serial at raft index %d returned %d; %d was already handed out in this history", st.idx, serial, st.maxSerial)
+		} else {
+			st.maxSerial = serial
+		}
+		if _, rootsAfter, _ := verifC12RootsSnapshot(s); fmt.Sprint(verifC12Sorted(rootsBefore)) != fmt.Sprint(verifC12Sorted(rootsAfter)) {
+			c.Violation(f, "C12/serial-allocation-changes-roots", "roots before %v after %v", verifC12Sorted(rootsBefore), verifC12Sorted(rootsAfter))
+		}
+	case "snapshot-restore":
+		before := vs.TakeDump(s)
+		snap := s.Snapshot()
+		fresh := state.NewStateStore(nil)
+		r := fresh.Restore()
+		fail := func(err error) {
+			r.Abort()
+			snap.Close()
+			c.Violation(f, "C12/snapshot-restore-fails", "restore: %v", err)
+		}
+		it, err := snap.Indexes()
+		if err != nil {
+			fail(err)
+			return
+		}
+		for raw := it.Next(); raw != nil; raw = it.Next() {
+			e := *raw.(*state.IndexEntry)
+			if err := r.IndexRestore(&e); err != nil {
+				fail(err)
+				return
+			}
+		}
+		roots, err := snap.CARoots()
+		if err != nil {
+			fail(err)
+			return
+		}
+		for _, root := range roots {
+			cp := *root
+			if err := r.CARoot(&cp); err != nil {
+				fail(err)
+				return
+			}
+		}
+		if cfg, err := snap.CAConfig(); err != nil {
+			fail(err)
+			return
+		} else if cfg != nil {
+			cp := *cfg
+			if err := r.CAConfig(&cp); err != nil {
+				fail(err)
+				return
+			}
+		}
+		snap.Close()
+		if err := r.Commit(); err != nil {
+			c.Violation(f, "C12/snapshot-restore-fails", "commit: %v", err)
+			return
+		}
+		c.Label("roots:snapshot-restore")
+		if st.maxSerial > 0 {
+			c.Label("serial:restore-after-allocation")
+		}
+		if diffs := vs.DiffDumps(before, vs.TakeDump(fresh), nil); len(diffs) > 0 {
+			c.Violation(f, "C12/snapshot-restore-changes-state/"+diffs[0].Signature(), "the restored store differs from the snapshotted one: %s (%d differences)", diffs[0].String(), len(diffs))
+		}
+		st.s = fresh
+	}
+}
+
 func verifC12RootsStep(f verifkit.F, c *verifkit.Case, st *verifC12RootsState, op verifC12RootOp) {
+	if op.Op == "serial" || op.Op == "snapshot-restore" {
+		verifC12SerialOrRestore(f, c, st, op)
+		return
+	}
 	s := st.s
 	st.idx += op.Step
 	idx := st.idx
@@ -413,10 +507,13 @@ func verifC12W(t *rapid.T, label string, w ...int) int {
 func verifC12GenRootOp(t *rapid.T, n int) verifC12RootOp {
 	ids := []string{"r1", "r2", "r3", "r4", "r5"}
 	op := verifC12RootOp{
-		Op:       []string{"set-roots-config", "set-roots", "cas", "set-config"}[verifC12W(t, "op", 35, 25, 25, 15)],
+		Op:       []string{"set-roots-config", "set-roots", "cas", "set-config", "serial", "snapshot-restore"}[verifC12W(t, "op", 30, 20, 20, 12, 12, 6)],
 		Step:     uint64(rapid.IntRange(1, 3).Draw(t, "step")),
 		Supplied: []string{"current", "stale", "zero", "future"}[verifC12W(t, "supplied", 60, 22, 9, 9)],
 		Back:     rapid.IntRange(0, 2).Draw(t, "back"),
+	}
+	if op.Op == "serial" || op.Op == "snapshot-restore" {
+		return verifC12RootOp{Op: op.Op, Step: op.Step}
 	}
 	if op.Op == "set-roots-config" || op.Op == "set-config" {
 		op.CfgIdx = []string{"current", "stale", "zero", "future"}[verifC12W(t, "cfgidx", 70, 15, 10, 5)]
@@ -489,7 +586,7 @@ func TestVerifC12RootsReplay(t *testing.T) {
 				continue
 			}
 			switch op.Op {
-			case "cas", "set-roots", "set-roots-config", "set-config":
+			case "cas", "set-roots", "set-roots-config", "set-config", "serial", "snapshot-restore":
 			default:
 				continue // a replay of another part of C12
 			}
